@@ -334,3 +334,22 @@ Definition skey_bytes (k : skey) : list Z :=
               let '(key, vals, units) := e in
               put_string key ++ uvarint (Z.of_nat (List.length vals)) ++ flat_map (fun v => uvarint (wrap_u64 v)) vals ++
               uvarint (Z.of_nat (List.length units)) ++ flat_map put_string units) nums)%list.
+
+(* ------------------------------------------------------------------ locationKey.lines, byte for byte *)
+(* strconv.FormatUint(v, 16) / FormatInt(v, 16), strings.Join(slots, "|"): three slots per line, the
+   first one empty for a nil function.  [lkey] above keeps the slots as numbers; this is the string
+   the Go code builds from them, compared with the real one by the harness. *)
+Definition hex_digit (d : Z) : Ascii.ascii :=
+  nth (Z.to_nat d) (list_ascii_of_string "0123456789abcdef") "0"%char.
+Fixpoint hex_fuel (n : nat) (v : Z) (acc : string) : string :=
+  match n with
+  | O => acc
+  | S n' => if v =? 0 then acc else hex_fuel n' (v / 16) (String (hex_digit (v mod 16)) acc)
+  end.
+Definition format_uint16 (v : Z) : string := if v =? 0 then "0" else hex_fuel 17 v "".
+Definition format_int16 (v : Z) : string :=
+  if v <? 0 then ("-" ++ format_uint16 (- v))%string else format_uint16 v.
+Definition lines_key (slots : list (Z * Z * Z)) : string :=
+  concat_with "|" (flat_map (fun x : Z * Z * Z =>
+                               let '(f, l, c) := x in
+                               [if f =? 0 then "" else format_uint16 f; format_int16 l; format_int16 c]) slots).
